@@ -68,6 +68,7 @@ type Conn struct {
 	srvCancel   context.CancelFunc
 	reqCtx      context.Context
 	finished    chan struct{}
+	writeLimit  int // >0: the peer does not read; server writes block once this many bytes are buffered
 
 	// observations
 	Outcome       string // network-level outcome ("", refuse, reset, ...)
@@ -500,6 +501,23 @@ func (c *Conn) Kill(kind string) {
 	}
 }
 
+// StopReading makes the client side of the connection a stalled consumer: it stops draining the
+// connection, so that (as with full socket buffers) the server's writes block once limit bytes are
+// in flight - until the connection is killed or ResumeReading is called.
+func (c *Conn) StopReading(limit int) {
+	c.mu.Lock()
+	c.writeLimit = limit
+	c.mu.Unlock()
+}
+
+// ResumeReading ends StopReading.
+func (c *Conn) ResumeReading() {
+	c.mu.Lock()
+	c.writeLimit = 0
+	c.broadcast()
+	c.mu.Unlock()
+}
+
 // Bytes returns everything the server wrote on this exchange so far.
 func (c *Conn) Bytes() []byte {
 	c.mu.Lock()
@@ -584,6 +602,19 @@ func (w *respWriter) Write(p []byte) (int, error) {
 		d = s.IOPoint(fmt.Sprintf("net.write c%d +%d", c.ID, len(p)), []int{1000, f.ResetMid, f.CutMid}, c)
 	}
 	c.n.waitStall(nil)
+	// back-pressure of a peer that does not read
+	for {
+		c.mu.Lock()
+		if c.writeLimit == 0 || len(c.buf) < c.writeLimit || c.clientGone || s.dead.Load() {
+			c.mu.Unlock()
+			break
+		}
+		ch := c.notify
+		c.mu.Unlock()
+		s.Fault("net.write_blocked")
+		<-ch
+		s.Yield(fmt.Sprintf("net.write#unblocked c%d", c.ID))
+	}
 	switch d {
 	case 1:
 		s.Fault("net.reset_mid")
